@@ -149,7 +149,7 @@ def run(rep):
                 "of every object, values of match rules, abstract-rule results, and textx_isinstance(obj, R) for every "
                 "object x rule against Peg!Conforms. Non-trivial: accepted inputs.")
     rep.assumptions = ["Peg!WellFormed fragment; the first common/abstract reference of an abstract alternative is not optional"]
-    P.judge_universe(rep, PID, "kinds", 1 if quick else 2)
+    P.judge_universe(rep, PID, "kinds", 1 if quick else 2, maxlen=4 if quick else "")
     rep.exhaustive = True
     n, per = (120, 8) if quick else (1200, 10)
     cases = cases_for(rng, n, per)
